@@ -23,11 +23,11 @@ def PathEquivRegion (G H : Hier) (gtop htop : Name) : Prop :=
 
 theorem name_walk_sound (G H : Hier) (gtop htop : Name)
     (h : simNameOK G H gtop htop false = true) : PathEquivName G H gtop htop :=
-  simOK_sound _ _ _ _ _ h
+  simOKc_sound _ _ _ _ _ h
 
 theorem region_walk_sound (G H : Hier) (gtop htop : Name)
     (h : simRegionOK G H gtop htop false = true) : PathEquivRegion G H gtop htop :=
-  simOK_sound _ _ _ _ _ h
+  simOKc_sound _ _ _ _ _ h
 
 /-- Both walks agree with each other on every decision sequence once both checks pass. -/
 theorem walks_agree (G H : Hier) (gtop htop : Name)
@@ -68,10 +68,17 @@ def exH : Hier := [
     header := "1", exiting := "1", parent := "m" },
   { cont := "loop_region_0", name := "1", jts := ["1", "2"], bes := ["1"] }]
 
-example : simNameOK exG exH "m" "m" false = true := by decide
-example : simRegionOK exG exH "m" "m" false = true := by decide
+/-- The list-based checker (`simOK`, kernel-reducible) accepts the pair; the compiled driver uses
+    the certificate-based `simOKc` — both are sound (`simOK_sound`, `simOKc_sound`). -/
+example : simOK (sysOrig exG) (sysName exH false) (initOrig exG "m") (initName exH "m" false) 64 = true := by
+  decide
+example : simOK (sysOrig exG) (sysRegion exH false) (initOrig exG "m") (initRegion exH "m" false) 64 = true := by
+  decide
 /-- …and the check is not trivially true: swapping the loop block's successors is rejected. -/
-example : simNameOK exG (exH.map fun b => if b.name == "1" then { b with jts := ["2", "1"] } else b)
-    "m" "m" false = false := by decide
+example : simOK (sysOrig exG)
+    (sysName (exH.map fun b => if b.name == "1" then { b with jts := ["2", "1"] } else b) false)
+    (initOrig exG "m")
+    (initName (exH.map fun b => if b.name == "1" then { b with jts := ["2", "1"] } else b) "m" false) 64
+    = false := by decide
 
 end Scfg.C01
